@@ -558,7 +558,8 @@ where
                 self.dt = (self.end - self.time) / self.order;
             }
             self.runge_kutta(O)?;
-            if shortened {
+            // (an unshortened start-up whose steps add up to the end can overshoot it by rounding)
+            if shortened || self.time.real() > self.end.real() {
                 self.time = self.end;
                 if let Some(last) = self.prev_values.back_mut() {
                     last.0 = self.end.real();
